@@ -70,10 +70,11 @@ class Check:
         self.broken = []      # list of (what, detail): obligations / ties that no longer check
         self.rundir = os.path.join(COQ, "Run", pid)
         self.known = []
-        kf = os.path.join(VERIF, "known_findings.json")
-        if os.path.exists(kf):
-            with open(kf) as f:
-                self.known = [k for k in json.load(f) if k.get("property") == pid]
+        import glob
+        for kf in [os.path.join(VERIF, "known_findings.json")] + sorted(glob.glob(os.path.join(VERIF, "findings", "*.json"))):
+            if os.path.exists(kf):
+                with open(kf) as f:
+                    self.known += [k for k in json.load(f) if k.get("property") == pid]
 
     def note(self, s):
         self.log.append(s)
@@ -86,8 +87,23 @@ class Check:
             self.broken.append(("translator-build", out[-2000:]))
             return False
         rc, out = sh(["./bin/gen", "-repo", REPO, "-out", os.path.join(COQ, "Gen")], cwd=HARNESS, timeout=300)
-        if rc != 0:
-            self.broken.append(("translator", "harness/cmd/gen no longer recognises the source: " + out[-2000:]))
+        self.gen_failures = ""
+        # compiled leftovers of a generated file that was not produced this time must not be loaded
+        gdir = os.path.join(COQ, "Gen")
+        have = {f[:-2] for f in os.listdir(gdir) if f.endswith(".v")}
+        for f in os.listdir(gdir):
+            stem = f.lstrip(".").split(".")[0]
+            if f != "FAILED.txt" and not f.endswith(".v") and stem not in have:
+                try:
+                    os.remove(os.path.join(gdir, f))
+                except OSError:
+                    pass
+        if rc == 3:
+            # some translator met a shape it does not understand: its output is missing, so exactly
+            # the proofs that depend on it will fail to build (reported there, with this text)
+            self.gen_failures = out[-2000:]
+        elif rc != 0:
+            self.broken.append(("translator", "harness/cmd/gen failed: " + out[-2000:]))
             return False
         return True
 
@@ -127,7 +143,8 @@ class Check:
         if not ok:
             m = re.search(r'File "\./([^"]+)", line (\d+)', out)
             where = "%s:%s" % (m.group(1), m.group(2)) if m else "?"
-            self.broken.append(("proof", "make %so failed at %s\n%s" % (props_v, where, out[-3000:])))
+            self.broken.append(("proof", "make %so failed at %s\n%s%s" % (props_v, where, out[-3000:],
+                                ("\ntranslator failures of this run: " + self.gen_failures) if getattr(self, "gen_failures", "") else "")))
         # forbidden constructs anywhere in the closure
         bad = []
         for f in self.files:
